@@ -400,7 +400,9 @@ def gen_consent(rng, i):
     """C13: converge on a loss-free network with a FIXED one-way delay (so the trace gives delivery times), then
     (a) blackout of one or both directions for a chosen duration, (b) local revocation on one side at a chosen moment,
     (c) a long idle session; application sends probe the send gate throughout."""
-    kind = rng.choice(["blackout", "blackout", "revoke", "idle"])
+    kind = rng.choice(["blackout", "blackout", "revoke", "idle", "restart"])
+    if kind == "restart":
+        return gen_consent_restart(rng, i)
     opts = [rng.choice([0, OPT_REGULAR]) | (OPT_CONSENT if rng.random() < 0.75 else 0) for _ in (0, 1)]
     if kind == "revoke":
         opts = [o | OPT_CONSENT for o in opts]
@@ -451,7 +453,47 @@ def gen_consent(rng, i):
     return "cons%d %s" % (i, " ".join(ops)), meta
 
 
+def gen_consent_restart(rng, i):
+    """an ICE restart on one side while READY: media keeps flowing on the old selected pair (RFC 8445 9.1.1.1) and the remote credentials are
+    forgotten until the application signals the new ones W seconds later: the old pair must not fall silent for longer than Tr meanwhile"""
+    opts = [rng.choice([0, OPT_REGULAR]) | (OPT_CONSENT if rng.random() < 0.75 else 0) for _ in (0, 1)]
+    delay = rng.choice([1, 5, 20])
+    ops = two_agents(rng, 0, tuple(opts), rng.choice([(1, 0), (0, 1)]), (("10.0.0.1",), ("10.0.1.1",)), 1)
+    ops.append("net,0,0,%d,%d,3" % (delay, delay))
+    ops += ["gather,0,1", "gather,1,1", "run,10"] + signalling(rng, 1) + ["run,%d" % rng.choice([6000, 9000, 14000])]
+    who = rng.randrange(2); w = rng.choice([3000, 8000, 27000, 33000, 58000])
+    ops += ["restart,%d" % who, "run,%d" % w, "restart,%d" % (1 - who)] + signalling(rng, 1) + ["run,12000"] + final_queries(1)
+    return "cons%d %s" % (i, " ".join(ops)), {"kind": "consent-restart", "ncomp": 1, "delay": delay, "opts": opts, "who": who, "wait": w}
+
+
+def oracle_restart_silence(evs, meta):
+    x = str(meta["who"])
+    tr = next((e.t for e in evs if e.kind == "api" and e.f[0] == x and e.f[1] == "restart"), None)
+    sel = None; t_new = None
+    for e in evs:
+        if e.kind == "sig" and e.f[0] == x and e.f[1] == "selected-pair":
+            if tr is None or e.t <= tr:
+                sel = (e.f[4], e.f[5])
+            elif t_new is None:
+                t_new = e.t
+    if tr is None or sel is None:
+        return "restart scenario: agent %s never selected a pair before the restart" % x
+    end = t_new if t_new is not None else max(e.t for e in evs if e.kind == "api")
+    last = max([e.t for e in evs if e.kind == "pkt" and e.t <= tr and e.f[0] == sel[0] and e.f[1] == sel[1]] or [tr])
+    SL = 100
+    for e in evs:
+        if e.kind == "pkt" and tr < e.t <= end and e.f[0] == sel[0] and e.f[1] == sel[1]:
+            if e.t - last > 25000 + SL:
+                return "after its ICE restart at t=%d agent %s left the still selected pair %s>%s silent for %d ms (Tr = 25000 ms)" % (tr, x, sel[0], sel[1], e.t - last)
+            last = e.t
+    if end - last > 25000 + SL:
+        return "after its ICE restart at t=%d agent %s left the still selected pair %s>%s silent for %d ms until t=%d (Tr = 25000 ms)" % (tr, x, sel[0], sel[1], end - last, end)
+    return None
+
+
 def oracle_consent(evs, meta):
+    if meta["kind"] == "consent-restart":
+        return oracle_restart_silence(evs, meta)
     delay = meta["delay"]; opts = meta["opts"]; ncomp = meta["ncomp"]
     SLACK = 60     # ms: Ta pacing of keepalives across components + dispatch
     for x in (0, 1):
